@@ -7,6 +7,17 @@ from . import prov as P
 from . import regexlang
 
 
+def _uniq_defs(ds):
+    """definitions of a local, identical statements (tail-duplicated blocks of the normalisation passes) counted once"""
+    out, seen = [], set()
+    for d in ds:
+        k = (d[2], str(d[3])) if d[2] == "rv" else (d[2], id(d[3]))
+        if k not in seen:
+            seen.add(k)
+            out.append(d)
+    return out
+
+
 def root_local(fn, pr, op):
     """follow temporaries (single full def by use/ref/deref/copy) back to the local holding the &str."""
     if "const" in op:
@@ -14,9 +25,34 @@ def root_local(fn, pr, op):
     pl = op.get("copy") or op.get("move")
     l = pl["l"]
     for _ in range(20):
-        if any(e != "deref" for e in pl["proj"]):
-            return None
-        ds = pr.defs.get(l, [])
+        fields = [e for e in pl["proj"] if e != "deref"]
+        if fields:
+            # a capture read through a (spliced) closure environment: `(*env).k` where env = &closure{op0, op1, ..}
+            if len(fields) != 1 or not isinstance(fields[0], dict) or "f" not in fields[0]:
+                return None
+            base = l
+            agg = None
+            for _j in range(6):
+                bd = _uniq_defs(pr.defs.get(base, []))
+                if len(bd) != 1 or bd[0][2] != "rv":
+                    break
+                brv = bd[0][3]
+                if "agg" in brv and isinstance(brv["agg"], dict) and "closure" in brv["agg"]:
+                    agg = brv
+                    break
+                nxt = brv.get("ref") or (brv.get("use") or {}).get("copy") or (brv.get("use") or {}).get("move")
+                if not nxt or [e for e in nxt["proj"] if e != "deref"]:
+                    break
+                base = nxt["l"]
+            if agg is None or fields[0]["f"] >= len(agg["ops"]):
+                return None
+            op2 = agg["ops"][fields[0]["f"]]
+            pl = op2.get("copy") or op2.get("move")
+            if pl is None:
+                return None
+            l = pl["l"]
+            continue
+        ds = _uniq_defs(pr.defs.get(l, []))
         if 1 <= l <= fn.arg_count and not ds:
             return l
         if len(ds) != 1 or ds[0][2] != "rv":
